@@ -16,6 +16,13 @@ R = [
  ("C03e-ind2save-saturate-int16-unrounded-common-path", [(NP, "            np.clip(rounded, i16.min, i16.max, out=chunk2save)\n", "            np.clip(rounded, i16.min, i16.max, out=rounded)\n"),
                                                          (NP, "        return chunk2save.astype(np.int16)\n", "        return rounded.astype(np.int16)\n")],
   "_ind2save saturates to the int16 range and counts saturated samples; the rounded array is what is cast on every path"),
+ ("C04e-deferred-delete-stale-verified-flag", [(NP, "                probe_path.mkdir(parents=True, exist_ok=True)\n                _shank_info[\"ap_file\"] = probe_path.joinpath(ap_file_bin)\n",
+                                                "                probe_path.mkdir(parents=True, exist_ok=True)\n                for stale_meta in probe_path.glob(\"*.meta\"):\n                    stale_meta.unlink()  # what is about to be overwritten is no longer verified\n                _shank_info[\"ap_file\"] = probe_path.joinpath(ap_file_bin)\n")],
+  "a later run may delete the original on the strength of a split_verified flag left in the shank metas by a successful post-check; the flag is dropped as soon as the shank files are about to be rewritten"),
+ ("C16e-saturation-blockwise-scan-drops-boundary-slew", [(VO, "        block = np.asarray(data[:, first:last])\n", "        block = np.asarray(data[:, first:min(last + 1, ns)])\n"),
+                                                          (VO, "        n_saturated[first:last] = np.mean(np.abs(block) > max_voltage * 0.98, axis=0)\n", "        n_saturated[first:last] = np.mean(np.abs(block[:, :last - first]) > max_voltage * 0.98, axis=0)\n"),
+                                                          (VO, "        n_diff_saturated[first:last] = np.r_[n_diff, 0]\n", "        n_diff_saturated[first:first + n_diff.size] = n_diff\n")],
+  "saturation scanned by blocks of samples that overlap by one sample, so the slew across a block edge is evaluated"),
  ("C05e-destripe-adc-stencil-cache-keyed-on-version", [(VO, "    key = (neuropixel_version, *shape)\n", "    key = (np.asarray(sample_shift).tobytes(), *shape)\n")],
   "fshift stencil option + cache of the ADC re-alignment stencils in destripe, keyed on the delays themselves"),
  ("C06e-batch-aligned-worker-chunks-small-nbatch", [(VO, "        max_s = _sr.ns if i_chunk == n_chunk - 1 else int(batch_bounds[i_chunk + 1]) * BATCH_STRIDE\n",
